@@ -204,13 +204,14 @@ impl FeatureState for TravelLimitState {
                     start_latest.total_cmp(&departure_time) != Ordering::Less
                         && end_latest.total_cmp(&departure_time) != Ordering::Less
                 })
+                // NOTE: do not depart before the shift starts
+                .map(|departure_time| start_place.time.earliest.unwrap_or(0.0).max(departure_time))
                 .find(|&departure_time| {
                     // check job can be served with this departure
-                    let earliest_departure = start_place.time.earliest.unwrap_or(0.0).max(departure_time);
                     let travel_info = TravelTime::Departure(departure_time);
                     let travel_duration = self.transport.duration(route, start_place.location, job_loc, travel_info);
 
-                    earliest_departure + travel_duration <= job_tw.end
+                    departure_time + travel_duration <= job_tw.end
                 })
             })
             .next()
